@@ -182,7 +182,11 @@ pub fn size_violations(p: &StdPair, cfg: &PairCfg) -> (Vec<(String, String)>, u6
                     out.push(("client-initial-below-1200".into(), format!("client at {t:?}: datagram #{idx} carrying an Initial packet has only {len} bytes")));
                 }
                 if frames.iter().any(|f| matches!(f, WFrame::PathChallenge(_) | WFrame::PathResponse(_))) && len < 1200 {
-                    let amp_limited = pre.as_ref().map_or(false, |x| !x.path_validated);
+                    // (RFC 9000 8.2.1: unless the anti-amplification limit for the path does not permit
+                    // a datagram of this size; budget read before the poll_transmit call, less what the
+                    // same call emitted earlier)
+                    let earlier: usize = batch_sizes.get(batch).map_or(0, |v| v.iter().sum::<usize>() - len);
+                    let amp_limited = pre.as_ref().map_or(false, |x| !x.path_validated && 3 * x.path_total_recvd < x.path_total_sent + earlier as u64 + 1200);
                     if !amp_limited {
                         out.push(("path-validation-below-1200".into(), format!("node{node} at {t:?}: datagram #{idx} carrying PATH_CHALLENGE/PATH_RESPONSE has only {len} bytes")));
                     }
